@@ -137,17 +137,30 @@ def c05(tier: str) -> int:
                    ILI_T if thorough else ILI_Q[:1])
     recs, nstates, depth = bfs(ops, 12 if thorough else 5, 4000 if thorough else 260, rng,
                                sample_ops=None if thorough else 9)
-    # random long histories on top of the breadth-first part
-    nwalk = 400 if thorough else 48
+    # spec -> code: behaviours generated by TLC's simulator from MC_StoreWalk (whole API
+    # calls over the full universe) are replayed on the real code; the installed
+    # lexicons and outcome the specification expects travel with every step
+    nwalk = 1200 if thorough else 64
+    sim = run_tlc('MC_StoreWalk', workers=1, simulate=f'num={nwalk}',
+                  extra=['-depth', '40', '-seed', str(seed() + 5)], timeout=1800)
+    walks = [w for w in sim.printed() if isinstance(w, list) and w and isinstance(w[0], dict)]
+    if sim.rc != 0 or len(walks) < nwalk // 2:
+        raise MachineryError('TLC -simulate produced no behaviours:\n' + sim.out[-2000:])
+    v.cov['tlc_simulated_behaviours'] = len(walks)
+    # plus uniformly random histories (they also try calls the simulator finds disabled)
     allops = alphabet(RES_T, REM_T, ILI_T)
-    jobs = [{'mode': 'walk', 'ops': [rng.choice(allops) for _ in range(25 if thorough else 14)]}
-            for _ in range(nwalk)]
+    jobs = [{'mode': 'walk', 'ops': [st['op'] for st in w], 'exp': w} for w in walks]
+    jobs += [{'mode': 'walk', 'ops': [rng.choice(allops) for _ in range(25 if thorough else 14)]}
+             for _ in range(200 if thorough else 16)]
     wres = run_driver('drv_store.py', jobs, timeout=3000)
     for j, r in zip(jobs, wres):
         if r is None or 'recs' not in r:
             recs.append({'timeout': True, 'op': ['?'], 'job': j['ops']})
         else:
-            recs.extend(r['recs'])
+            for k, rec in enumerate(r['recs']):
+                if 'exp' in j:
+                    rec['exp'] = {'outcome': j['exp'][k]['outcome'], 'inst': j['exp'][k]['inst']}
+                recs.append(rec)
     number(recs)
     j = tlc_judge('Judge_Store', recs, cfg='Judge.cfg', shards=NCPU)
     nontriv = sum(1 for r in recs if r.get('pre') and r['pre']['inst'] != r['post']['inst'])
